@@ -42,7 +42,15 @@ impl DownloadManifest {
         // Validate header
         header.validate()?;
 
-        let mut entries = Vec::with_capacity(header.entry_count() as usize);
+        // The entry count comes from the header, so cap the pre-allocation by
+        // what the remaining input can hold: an entry is at least a 16-byte
+        // key + 5-byte size + 1-byte priority.
+        let min_entry_size = 16 + 5 + 1;
+        let remaining = data
+            .len()
+            .saturating_sub(usize::try_from(cursor.position()).unwrap_or(data.len()));
+        let mut entries =
+            Vec::with_capacity((header.entry_count() as usize).min(remaining / min_entry_size));
         let mut tags = Vec::with_capacity(header.tag_count() as usize);
 
         // All versions: Parse entries first
